@@ -11,6 +11,7 @@
 //	R4 net.Dial, net.ListenTCP, net.TCPConn, http.ListenAndServe -> simrt equivalents
 //	R5 selected package-level variables     -> *simrt.NodeVar(key, &X)
 //	R8 time.Sleep / time.After / time.NewTicker -> simrt equivalents (tracked, stoppable)
+//	R9 uuid.NewV4 / uuid.New                -> simrt.NewUUID (seeded, per node)
 //	R6 error-inject/default.go              -> hooks calling simrt.Hook
 //	R7 app: RegisterFrontend helper
 //
@@ -231,6 +232,20 @@ func rewriteFile(fset *token.FileSet, p *packages.Package, f *ast.File, rel stri
 				if n.Sel.Name == "NewTimer" || n.Sel.Name == "Tick" || n.Sel.Name == "AfterFunc" {
 					die("%s: time.%s is not handled by R8", fset.Position(n.Pos()), n.Sel.Name)
 				}
+			case "github.com/satori/go.uuid":
+				if n.Sel.Name == "NewV4" {
+					c.Replace(sel("NewUUID"))
+					st.net++
+					changed = true
+					return false
+				}
+			case "github.com/google/uuid":
+				if n.Sel.Name == "New" {
+					c.Replace(sel("NewUUID"))
+					st.net++
+					changed = true
+					return false
+				}
 			case "net/http":
 				if n.Sel.Name == "ListenAndServe" {
 					c.Replace(sel(n.Sel.Name))
@@ -380,9 +395,15 @@ func rewriteFile(fset *token.FileSet, p *packages.Package, f *ast.File, rel stri
 	if needSimrt {
 		astutil.AddImport(fset, f, simrtPath)
 	}
-	for _, imp := range []string{"sync", "net", "net/http", "time"} {
+	for _, imp := range []string{"sync", "net", "net/http", "time", "github.com/satori/go.uuid", "github.com/google/uuid"} {
 		if !usesImport(f, imp) {
-			astutil.DeleteImport(fset, f, imp)
+			name := ""
+			for _, is := range f.Imports {
+				if p, _ := strconv.Unquote(is.Path.Value); p == imp && is.Name != nil {
+					name = is.Name.Name
+				}
+			}
+			astutil.DeleteNamedImport(fset, f, name, imp)
 		}
 	}
 	return true
@@ -405,6 +426,9 @@ func usesImport(f *ast.File, path string) bool {
 				local = imp.Name.Name
 			} else {
 				local = path[strings.LastIndex(path, "/")+1:]
+				if path == "github.com/satori/go.uuid" {
+					local = "uuid"
+				}
 			}
 		}
 	}
